@@ -52,6 +52,9 @@ THEOREMS = [
     'C17.solveG_homogeneous_competing', 'C17.solveG_undeformed_extra_shells',
     # where the neighbour list comes from (neighbors= / cutoff= / attribute / refusal)
     'C17.nbrSource_precedence', 'C17.slipVectorCall_sources', 'C17.strainSources_spec',
+    # both systems in another Cartesian frame (rotation / axis permutation / reflection of positions and box vectors; cells
+    # with their zero entries anywhere, left-handed cells): results are carried along wherever the images are decided
+    'C17.normSq_isometry', 'C17.dv_isometry', 'C17.frame_equivariant',
 ]
 PARTIAL = {
     'matchPQ_pairing': 'the conflict resolution of match_pq is proved for arbitrary lists (one q per p, the winner is the q closest '
@@ -73,6 +76,13 @@ PARTIAL = {
     'stale_reads': 'the real Strain object keeps cached strain/rotation/invariants/Nye when p vectors, theta_max or the system '
                    'change WITHOUT solve_G/clear_properties (by design: solve_G is the documented way to re-solve); the model '
                    'mirrors that (tied), the theorems state coherence only after solve_G, on fresh and on cleared objects',
+    'frame_rows': 'frame_equivariant covers every isometry of the Cartesian frame (positions and box vectors mapped together); listing '
+                  'the three box vectors in another ORDER changes the order in which the loops of dvect visit the candidate images: '
+                  'with a decided (strictly minimal) image the result is the same; that is checked on the real code (oracle '
+                  'rotated:* with reordered box vectors, tie disp / slip in permuted frames), not proved',
+    'cutoff_lists': 'that the list atomman builds for a complete-shell cutoff holds exactly the lattice neighbours is property C03; '
+                    'the theorems take the list as given.  The cutoff= entry points are searched against an exact integer lattice '
+                    'count (10-14 complete shells, up to 368 neighbours per atom and 4e5 pairs; > 4096 atoms)',
     'rank_deficient': 'atoms with fewer than three independent matched neighbour vectors (corners of non-periodic blocks, half '
                       'lists): lstsq returns the minimum-norm solution, which the normal-equation model does not describe; '
                       'such atoms are only required not to crash the analysis (G = F^-T is claimed for full-rank atoms)',
@@ -102,7 +112,14 @@ RULE = ('reference crystals fcc/bcc/hcp/L1_2/B2/two-type hcp/bct-described fcc/[
         'fields (non-symmetric grad G); every entry point with every combination of neighbors= / cutoff= / a `neighbors` '
         'attribute on the system (three different lists behind them) incl. the refusals; joint translations up to 1e6 '
         '(disregistry: along the normal up to 1/8 plane spacing / 1e-5), lengths scaled by 2**-300 .. 2**300 '
-        '(disregistry 2**-16 .. 2**16); distinct = distinct (crystal, size, deformation, cutoff, '
+        '(disregistry 2**-16 .. 2**16); round 4: deformation gradients with a SINGLE off-diagonal entry in each of the six '
+        'positions and lower / upper triangular F on orthogonal cells (cells vects.F^T with zero entries anywhere), both systems '
+        'with the Cartesian axes permuted / reflected and the box vectors reordered (upper-triangular, left-handed cells), '
+        'per-atom and uniform displacements chosen in the FRACTIONAL basis with every component below 1/2 (31/64 .. 22/64, signs '
+        'independent; system_1 unwrapped and with atoms moved by box vectors), slips f1 a + f2 b of that kind, one rigid slip per '
+        'run each with 10-12 complete shells (130-250 neighbours, > 65536 pairs), with 13-14 shells (> 255 neighbours) and with '
+        'more than 4096 atoms (thorough: 8192 / 16384 / 65536, > 1000 neighbours), list built by atomman from the cutoff, expected '
+        'neighbours from an exact integer lattice count; distinct = distinct (crystal, size, deformation, cutoff, '
         'op); non-trivial = deformation non-zero (match: the loop discards or leaves out something)')
 ASSUMPTIONS = [
     'numpy.linalg.lstsq returns the solution of the normal equations for full-column-rank Q (residual of the real '
@@ -3547,11 +3564,14 @@ def _search_big(ctx, caseseed, it):
     import atomman as am
     rng = random.Random(caseseed)
     lat = rng.choice(['fcc', 'bcc'])
-    variant = 'shells' if it % 2 == 0 else 'atoms'
+    variant = ['shells', 'atoms', 'shells256'][it % 3]
     shells = _lattice_shells(lat)
     if variant == 'shells':
         k = rng.choice([10, 11, 12])
-        if ctx.thorough and it % 6 == 4:
+    elif variant == 'shells256':
+        # more than 255 neighbours per atom (fcc: 13 shells = 320, 14 = 368; bcc: 13 = 258, 14 = 282); thorough: > 1000
+        k = rng.choice([13, 14])
+        if ctx.thorough and it % 6 == 5:
             k = next(kk for kk in range(1, len(shells)) if sum(len(o) for _, o in shells[:kk]) > 1000)
     else:
         k = rng.choice([1, 2])
@@ -3571,7 +3591,7 @@ def _search_big(ctx, caseseed, it):
     mper = int(math.ceil(2 * (cut / a + 0.4) + 1e-9))
     size = [mper + rng.choice([0, 0, 1]) for _ in range(3)]
     if not pbc[axis]:
-        size[axis] = max(2, rng.choice([mper - 2, mper - 1, mper]))
+        size[axis] = mper if variant == 'shells256' else max(2, rng.choice([mper - 2, mper - 1, mper]))
     if variant == 'atoms':
         thr = rng.choice([4096, 4096, 8192, 16384, 65536]) if ctx.thorough else 4096
         m1, m2 = rng.randint(max(mper, 7), 16), rng.randint(max(mper, 7), 16)
@@ -3612,9 +3632,14 @@ def _search_big(ctx, caseseed, it):
     exp_dd = du[J] - du[I]
     s1 = _system(s0, s0.atoms.pos + du, pbc=tuple(pbc))
     s1c = _inbox(s1, np)
+    wrapped = variant == 'atoms' or rng.random() < 0.5
+    if wrapped:
+        # (handed to displacement and slip_vector(neighbors=): the same configuration with atoms moved by box vectors)
+        s1 = _system(s0, _wrapshift(rng, s1, np), pbc=tuple(pbc))
     base = {'op': 'search-big', 'caseseed': caseseed, 'it': it, 'lattice': lat, 'a': a, 'size': list(size), 'natoms': n,
             'shells': k, 'cutoff': cut, 'cutoff_over_a': cut / a, 'neighbours_per_bulk_atom': int(coordx.max()), 'pairs': int(len(I)),
-            'pbc': list(pbc), 'normal_axis': axis, 'plane': mid, 'u_above': uA.tolist(), 'u_below': uB.tolist(), 'variant': variant}
+            'pbc': list(pbc), 'normal_axis': axis, 'plane': mid, 'u_above': uA.tolist(), 'u_below': uB.tolist(), 'variant': variant,
+            'wrapped': wrapped}
     ctx.stats.case('oracle:big:' + variant, (lat, a, size, k, tuple(pbc), axis, mid, tuple(uA), tuple(uB)), sample=base)
     ctx.extra['big_neighbours_max'] = max(ctx.extra.get('big_neighbours_max', 0), int(coordx.max()))
     ctx.extra['big_pairs_max'] = max(ctx.extra.get('big_pairs_max', 0), int(len(I)))
@@ -3635,7 +3660,7 @@ def _search_big(ctx, caseseed, it):
             kb = -1 if d.shape != du.shape else _bad(d, du, tol)
             if kb is not None:
                 fail('displacement', f'displacement(box_reference={bref!r}) of atom {kb} is {d[kb].tolist() if kb >= 0 else d.shape}, '
-                     f'imposed {du[max(kb, 0)].tolist()}', kb)
+                     f'imposed {du[max(kb, 0)].tolist()}{" (atoms of system_1 moved by box vectors)" if wrapped else ""}', kb)
     # the list atomman builds for the cutoff (the one the cutoff= paths use)
     nl = _guard(lambda: am.NeighborList(system=s0, cutoff=cut))
     lists_ok = False
@@ -3684,6 +3709,7 @@ def _search_big(ctx, caseseed, it):
     F = _rand_F(rng, rng.choice(['general', 'rotation', 'strain', 'single']))
     s0p = _system(s0, s0.atoms.pos.copy(), pbc=(True, True, True))
     s1h = _deform(s0p, F)
+    s1hw = _system(s1h, _wrapshift(rng, s1h, np))          # (for displacement: atoms moved by box vectors of the deformed cell)
     Fq = _fr_mat(F)
     Finv = _inv3(Fq)
     Gf = np.array([[float(Finv[j][i]) for j in range(3)] for i in range(3)])
@@ -3703,7 +3729,7 @@ def _search_big(ctx, caseseed, it):
             kb = int(np.abs(ny).reshape(n, -1).max(1).argmax())
             fail('Strain.nye', f'Strain(cutoff=).nye[{kb}] = {ny[kb].tolist()} for a homogeneous deformation (expected 0)', kb)
     exp_h = s0p.atoms.pos @ (np.array(F) - np.identity(3)).T
-    d = _guard(lambda: am.displacement(s0p, s1h))
+    d = _guard(lambda: am.displacement(s0p, s1hw))
     kb = -2 if isinstance(d, _Raised) else -1 if d.shape != exp_h.shape else _bad(d, exp_h, tol)
     if kb is not None:
         fail('displacement', f'displacement under the homogeneous F = {F}: {d.text if kb == -2 else d[kb].tolist() if kb >= 0 else d.shape}, '
@@ -3729,7 +3755,7 @@ def search(ctx, broken):
         _guarded_case(ctx, 'search', _search_field, rng.getrandbits(48), it)
     for it in range(ctx.n(5, 30) * mult):
         _guarded_case(ctx, 'search', _sources, rng.getrandbits(48), it, False)
-    for it in range(ctx.n(2, 12) * mult):
+    for it in range(ctx.n(3, 12) * mult):
         _guarded_case(ctx, 'search', _search_big, rng.getrandbits(48), it)
 
 
